@@ -13,6 +13,10 @@ Anything outside the subset makes the generated file contain `#exit`-free invali
 No: it raises Unsupported, the kernel is emitted as a comment and its link theorem is emitted as a
 failing `example : False` is NOT done either — instead the link file states the theorem against a
 missing definition, which fails to elaborate: the check then reports "link no longer checks".
+
+A second translator (class Tr2, table SPECS, further down) covers straight-line kernels with local
+assignments, 3-vectors and poses and writes Kernels03/04/10.lean + Link03/04/10.lean (properties C03, C04, C10)
+under the same policy.  KERNELS_05 / translate_05 are untouched.
 """
 import ast
 import os
@@ -152,6 +156,575 @@ def translate_05():
     return "\n".join(out), "\n".join(link), problems
 
 
+# ---------------------------------------------------------------------------------------------
+# Second translator: straight-line kernels with local assignments and 3-vectors (C03/C04/C10).
+#
+# Supported subset: a body of `x = e`, `x op= e` (x a local, never a parameter: numpy would mutate the
+# caller's array), `if c: <assignments> [else: <assignments>]`, `if c: ... return e` and a final
+# `return e`, where e is built from scalars / 3-vectors / a (4,4) pose parameter:
+#   + - * / and unary minus with numpy broadcasting written out per component (operand order kept),
+#   np.dot, np.cross, np.linalg.norm on 3-vectors, math.sqrt / np.sqrt, abs / np.abs / math.fabs,
+#   min / max (Python semantics: `pmin`/`pmax` of the model), v[i] with constant i,
+#   np.array([a, b, c]), A[:3, j] (column j of R, or the translation for j = 3), tuples,
+#   comparisons < > <= >= and `x == 0.0` (as `x ≤ 0 ∧ 0 ≤ x`, the model's reading of float equality),
+#   `not b` on a bool parameter.
+# No alias analysis is done: a local vector is treated as a value.
+# ---------------------------------------------------------------------------------------------
+import re
+
+_ATOM = re.compile(r"^[A-Za-z_][A-Za-z_0-9.']*$")
+
+
+def _comp(vecs, f):
+    """componentwise vector built from the vector expressions `vecs` (bound to fresh names first)"""
+    names, lets = [], []
+    for i, v in enumerate(vecs):
+        if _ATOM.match(v):
+            names.append(v)
+        else:
+            n = "v%d_" % i
+            lets.append("let %s : V3 α := %s; " % (n, v))
+            names.append(n)
+    body = "(⟨%s, %s, %s⟩ : V3 α)" % tuple(f(*[n + "." + c for n in names]) for c in "xyz")
+    return "(%s%s)" % ("".join(lets), body) if lets else body
+
+
+class Tr2:
+    def __init__(self, params, kinds, known, minmax=("min", "max")):
+        self.env = dict(zip(params, kinds))
+        self.params = set(params)
+        self.known = known  # python name -> (lean name, result kind)
+        self.minmax = minmax
+
+    # -- expressions: returns (kind, lean) ; kind in scalar, vec, pose, bool, prop, ("tuple", [...])
+    def num(self, v):
+        if v in (0, 1, 2):
+            return "(%d : α)" % v
+        return "(%r : α)" % float(v)
+
+    def expr(self, e):
+        if isinstance(e, ast.Name):
+            if e.id in self.env:
+                return self.env[e.id], e.id
+            raise Unsupported("free name " + e.id)
+        if isinstance(e, ast.Constant):
+            if isinstance(e.value, bool):
+                return "bool", "true" if e.value else "false"
+            if isinstance(e.value, (int, float)):
+                return "scalar", self.num(e.value)
+            raise Unsupported("constant %r" % (e.value,))
+        if isinstance(e, ast.Tuple):
+            parts = [self.expr(x) for x in e.elts]
+            return ("tuple", [k for k, _ in parts]), "(" + ", ".join(s for _, s in parts) + ")"
+        if isinstance(e, ast.UnaryOp):
+            k, s = self.expr(e.operand)
+            if isinstance(e.op, ast.USub) and k in ("scalar", "vec"):
+                return k, "(-%s)" % s
+            if isinstance(e.op, ast.Not) and k == "bool":
+                return "bool", "(!%s)" % s
+            raise Unsupported("unary " + ast.unparse(e))
+        if isinstance(e, ast.BinOp):
+            op = {ast.Add: "+", ast.Sub: "-", ast.Mult: "*", ast.Div: "/"}.get(type(e.op))
+            if op is None:
+                raise Unsupported(ast.dump(e.op))
+            return self.binop(op, self.expr(e.left), self.expr(e.right))
+        if isinstance(e, ast.Compare) and len(e.ops) == 1:
+            (kl, l), (kr, r) = self.expr(e.left), self.expr(e.comparators[0])
+            if kl != "scalar" or kr != "scalar":
+                raise Unsupported("comparison of non-scalars " + ast.unparse(e))
+            o = e.ops[0]
+            if isinstance(o, ast.Eq):
+                c = e.comparators[0]
+                if isinstance(c, ast.Constant) and c.value == 0 and not isinstance(c.value, bool):
+                    return "prop", "(%s ≤ 0 ∧ 0 ≤ %s)" % (l, l)
+                raise Unsupported("== against a non-zero " + ast.unparse(e))
+            if isinstance(o, ast.NotEq):
+                c = e.comparators[0]
+                if isinstance(c, ast.Constant) and c.value == 0 and not isinstance(c.value, bool):
+                    return "prop", "(%s < 0 ∨ 0 < %s)" % (l, l)
+                raise Unsupported("!= against a non-zero " + ast.unparse(e))
+            op = {ast.LtE: "≤", ast.GtE: "≥", ast.Lt: "<", ast.Gt: ">"}.get(type(o))
+            if op is None:
+                raise Unsupported(ast.dump(o))
+            return "prop", "(%s %s %s)" % (l, op, r)
+        if isinstance(e, ast.Subscript):
+            return self.subscript(e)
+        if isinstance(e, ast.Attribute) and e.attr == "T":
+            k, s = self.expr(e.value)
+            if k == "mat":
+                return "matT", s
+            raise Unsupported("transpose of " + str(k))
+        if isinstance(e, ast.Call):
+            return self.call(e)
+        raise Unsupported(ast.dump(e)[:80])
+
+    def binop(self, op, L, R):
+        (kl, l), (kr, r) = L, R
+        if kl == "scalar" and kr == "scalar":
+            return "scalar", "(%s %s %s)" % (l, op, r)
+        if kl == "vec" and kr == "vec":
+            if op in "+-":
+                return "vec", "(%s %s %s)" % (l, op, r)
+            return "vec", _comp([l, r], lambda a, b: "%s %s %s" % (a, op, b))
+        if kl == "scalar" and kr == "vec":
+            if op == "*":
+                return "vec", "(%s * %s)" % (l, r)  # HMul α (V3 α) = V3.smul : s * v.i
+            return "vec", _comp([r], lambda b: "%s %s %s" % (l, op, b))
+        if kl == "vec" and kr == "scalar":
+            if op == "/":
+                return "vec", "(V3.sdiv %s %s)" % (l, r)
+            return "vec", _comp([l], lambda a: "%s %s %s" % (a, op, r))
+        raise Unsupported("operands of %s: %s, %s" % (op, kl, kr))
+
+    def subscript(self, e):
+        idx = e.slice
+        k, s = self.expr(e.value)
+        if isinstance(idx, ast.Constant) and isinstance(idx.value, int) and not isinstance(idx.value, bool):
+            if k == "vec" and idx.value in (0, 1, 2):
+                return "scalar", "%s.%s" % (s if _ATOM.match(s) else "(" + s + ")", "xyz"[idx.value])
+            if isinstance(k, tuple) and 0 <= idx.value < len(k[1]):
+                n, i = len(k[1]), idx.value
+                proj = ".2" * i + (".1" if i < n - 1 else "")
+                return k[1][i], "%s%s" % (s, proj)
+        if (isinstance(k, tuple) and isinstance(idx, ast.Slice) and idx.lower is None and idx.step is None
+                and isinstance(idx.upper, ast.Constant) and isinstance(idx.upper.value, int)
+                and not isinstance(idx.upper.value, bool) and 2 <= idx.upper.value <= len(k[1])):
+            n, m = len(k[1]), idx.upper.value
+            if not _ATOM.match(s):
+                return ("tuple", k[1][:m]), "(let tup_ := %s; (%s))" % (s, ", ".join(
+                    "tup_" + ".2" * i + (".1" if i < n - 1 else "") for i in range(m)))
+            return ("tuple", k[1][:m]), "(%s)" % ", ".join(s + ".2" * i + (".1" if i < n - 1 else "") for i in range(m))
+        if (k == "pose" and isinstance(idx, ast.Tuple) and len(idx.elts) == 2 and
+                ast.unparse(idx.elts[0]) == ":3" and isinstance(idx.elts[1], ast.Constant) and
+                idx.elts[1].value in (0, 1, 2, 3)):
+            j = idx.elts[1].value
+            return "vec", ("%s.t" % s) if j == 3 else ("%s.R.col%d" % (s, j))
+        if (k == "pose" and isinstance(idx, ast.Tuple) and len(idx.elts) == 2 and
+                [ast.unparse(x) for x in idx.elts] == [":3", ":3"]):
+            return "mat", "%s.R" % s
+        raise Unsupported("subscript " + ast.unparse(e))
+
+    def call(self, e):
+        fn = ast.unparse(e.func)
+        if e.keywords:
+            raise Unsupported("keyword arguments in " + ast.unparse(e))
+        if isinstance(e.func, ast.Attribute) and e.func.attr == "dot" and len(e.args) == 1:
+            # method form `a.dot(b)` of np.dot(a, b)
+            (ka, a), (kb, b) = self.expr(e.func.value), self.expr(e.args[0])
+            if ka == "vec" and kb == "vec":
+                return "scalar", "(V3.dot %s %s)" % (a, b)
+            if ka == "mat" and kb == "vec":
+                return "vec", "(M3.mulVec %s %s)" % (a, b)
+            raise Unsupported("call " + ast.unparse(e)[:60])
+        args = [self.expr(a) for a in e.args] if not (fn == "np.array") else None
+        ks = [k for k, _ in args] if args is not None else None
+        if fn == "np.dot" and ks == ["vec", "vec"]:
+            return "scalar", "(V3.dot %s %s)" % (args[0][1], args[1][1])
+        if fn == "np.dot" and ks == ["mat", "vec"]:
+            return "vec", "(M3.mulVec %s %s)" % (args[0][1], args[1][1])
+        if fn == "np.dot" and ks == ["matT", "vec"]:
+            return "vec", "(M3.tmulVec %s %s)" % (args[0][1], args[1][1])
+        if fn == "np.sign" and ks == ["scalar"]:
+            return "scalar", "(signS %s)" % args[0][1]
+        if fn == "np.sign" and ks == ["vec"]:
+            return "vec", _comp([args[0][1]], lambda a: "signS %s" % a)
+        if fn in ("np.minimum", "np.maximum") and args is not None and len(args) == 2:
+            m = self.minmax[fn == "np.maximum"]
+            (ka, a), (kb, b) = args
+            if ka == "scalar" and kb == "scalar":
+                return "scalar", "(%s %s %s)" % (m, a, b)
+            if ka == "vec" and kb == "vec":
+                return "vec", _comp([a, b], lambda x, y: "%s %s %s" % (m, x, y))  # x, y are projections of atoms
+            if ka == "scalar" and kb == "vec":
+                return "vec", _comp([b], lambda y: "%s %s (%s)" % (m, a, y))
+            if ka == "vec" and kb == "scalar":
+                return "vec", _comp([a], lambda x: "%s (%s) %s" % (m, x, b))
+        if fn == "np.cross" and ks == ["vec", "vec"]:
+            return "vec", "(V3.cross %s %s)" % (args[0][1], args[1][1])
+        if fn == "np.linalg.norm" and ks == ["vec"]:
+            return "scalar", "(V3.norm %s)" % args[0][1]
+        if fn in ("math.sqrt", "np.sqrt") and ks == ["scalar"]:
+            return "scalar", "(sqrt %s)" % args[0][1]
+        if fn == "np.sqrt" and ks == ["vec"]:
+            return "vec", _comp([args[0][1]], lambda a: "sqrt (%s)" % a)
+        if fn in ("abs", "np.abs", "math.fabs") and ks == ["scalar"]:
+            return "scalar", "(absS %s)" % args[0][1]
+        if fn == "np.abs" and ks == ["vec"]:
+            return "vec", _comp([args[0][1]], lambda a: "absS %s" % a)
+        if fn in ("min", "max") and ks == ["scalar", "scalar"]:
+            return "scalar", "(%s %s %s)" % (self.minmax[fn == "max"], args[0][1], args[1][1])
+        if fn == "np.array" and len(e.args) == 1 and isinstance(e.args[0], ast.List) and len(e.args[0].elts) == 3:
+            parts = [self.expr(x) for x in e.args[0].elts]
+            if all(k == "scalar" for k, _ in parts):
+                return "vec", "(⟨%s, %s, %s⟩ : V3 α)" % tuple(s for _, s in parts)
+        if fn == "np.clip" and ks == ["scalar"] * 3:
+            return "scalar", "(%s (%s %s %s) %s)" % (self.minmax[0], self.minmax[1], args[0][1], args[1][1], args[2][1])
+        if fn == "np.clip" and ks == ["vec"] * 3:
+            return "vec", _comp([a for _, a in args], lambda x, lo, hi: "%s (%s %s %s) %s" % (
+                self.minmax[0], self.minmax[1], x, lo, hi))
+        if fn == "np.copy" and ks == ["vec"]:
+            return "vec", args[0][1]
+        if fn == "np.column_stack" and ks == [("tuple", ["vec", "vec", "vec"])] and isinstance(e.args[0], ast.Tuple):
+            a, b, c = [self.expr(x)[1] for x in e.args[0].elts]
+            if all(_ATOM.match(x) for x in (a, b, c)):
+                return "mat", "(⟨%s⟩ : M3 α)" % ", ".join("⟨%s.%s, %s.%s, %s.%s⟩" % (a, i, b, i, c, i) for i in "xyz")
+        if fn in self.known and args is not None:
+            lname, pk, rk = self.known[fn]
+            if ks == pk:
+                return rk, "(%s %s)" % (lname, " ".join(s for _, s in args))
+        raise Unsupported("call " + ast.unparse(e)[:60])
+
+    def cond(self, e):
+        k, s = self.expr(e)
+        if k == "prop":
+            return s
+        if k == "bool":
+            return "(%s = true)" % s
+        raise Unsupported("condition " + ast.unparse(e))
+
+    # -- statements: returns (result kind, lean term) for a block that must end in a return
+    def assign(self, st):
+        """one assignment statement -> (name, kind, lean)"""
+        if isinstance(st, ast.Assign) and len(st.targets) == 1 and isinstance(st.targets[0], ast.Name):
+            k, s = self.expr(st.value)
+            return st.targets[0].id, k, s
+        if isinstance(st, ast.AugAssign) and isinstance(st.target, ast.Name):
+            n = st.target.id
+            if n in self.params:
+                raise Unsupported("in-place update of parameter " + n)
+            op = {ast.Add: "+", ast.Sub: "-", ast.Mult: "*", ast.Div: "/"}.get(type(st.op))
+            if op is None or n not in self.env:
+                raise Unsupported(ast.unparse(st))
+            k, s = self.binop(op, (self.env[n], n), self.expr(st.value))
+            return n, k, s
+        # component store `v[i] = e` / `v[i] op= e` on a local 3-vector: functional update of the local
+        t = st.targets[0] if isinstance(st, ast.Assign) and len(st.targets) == 1 else getattr(st, "target", None)
+        if (isinstance(t, ast.Subscript) and isinstance(t.value, ast.Name) and isinstance(t.slice, ast.Constant)
+                and t.slice.value in (0, 1, 2) and not isinstance(t.slice.value, bool)):
+            n, i = t.value.id, t.slice.value
+            if n in self.params:
+                raise Unsupported("in-place update of parameter " + n)
+            if self.env.get(n) != "vec":
+                raise Unsupported("component store into " + n)
+            k, s = self.expr(st.value)
+            if k != "scalar":
+                raise Unsupported("component store of a non-scalar " + ast.unparse(st))
+            if isinstance(st, ast.AugAssign):
+                op = {ast.Add: "+", ast.Sub: "-", ast.Mult: "*", ast.Div: "/"}.get(type(st.op))
+                if op is None:
+                    raise Unsupported(ast.unparse(st))
+                s = "%s.%s %s %s" % (n, "xyz"[i], op, s)
+            comps = [s if j == i else "%s.%s" % (n, "xyz"[j]) for j in range(3)]
+            return n, "vec", "(⟨%s, %s, %s⟩ : V3 α)" % tuple(comps)
+        raise Unsupported("statement " + ast.unparse(st)[:60])
+
+    def bind(self, n, k):
+        self.env[n] = k
+        self.params.discard(n)
+
+    def branch(self, stmts, outs):
+        """a branch consisting of assignments only, yielding the tuple of `outs`"""
+        saved = (dict(self.env), set(self.params))
+        lets = []
+        for st in stmts:
+            n, k, s = self.assign(st)
+            lets.append("let %s := %s; " % (n, s))
+            self.bind(n, k)
+        for o in outs:
+            if o not in self.env:
+                raise Unsupported("%s is not assigned on every path" % o)
+        kinds = [self.env[o] for o in outs]
+        self.env, self.params = saved[0], saved[1]
+        val = outs[0] if len(outs) == 1 else "(" + ", ".join(outs) + ")"
+        return kinds, "(%s%s)" % ("".join(lets), val) if lets else val
+
+    def block(self, stmts, ind="  "):
+        if not stmts:
+            raise Unsupported("path without return")
+        st, rest = stmts[0], stmts[1:]
+        if isinstance(st, ast.Return):
+            if st.value is None:
+                raise Unsupported("bare return")
+            k, s = self.expr(st.value)
+            return k, ind + s
+        if isinstance(st, ast.If):
+            c = self.cond(st.test)
+            if st.body and isinstance(st.body[-1], ast.Return):
+                saved = (dict(self.env), set(self.params))
+                k1, s1 = self.block(st.body, ind + "  ")
+                self.env, self.params = dict(saved[0]), set(saved[1])
+                k2, s2 = self.block(list(st.orelse) + rest, ind + "  ")
+                if k1 != k2:
+                    raise Unsupported("branches return different shapes")
+                return k1, "%sif %s then\n%s\n%selse\n%s" % (ind, c, s1, ind, s2)
+            outs = []
+            for b in (st.body, st.orelse):
+                for x in b:
+                    t = x.targets[0] if isinstance(x, ast.Assign) and len(x.targets) == 1 else getattr(x, "target", None)
+                    if isinstance(t, ast.Subscript):
+                        t = t.value
+                    if not isinstance(t, ast.Name):
+                        raise Unsupported("statement in branch " + ast.unparse(x)[:60])
+                    if t.id not in outs:
+                        outs.append(t.id)
+            def names(b):
+                ts = [(x.targets[0] if isinstance(x, ast.Assign) else x.target) for x in b]
+                return {(t.value if isinstance(t, ast.Subscript) else t).id for t in ts}
+            # a name assigned on one path only and unknown before the `if` is local to that path
+            outs = [o for o in outs if o in self.env or (o in names(st.body) and o in names(st.orelse))]
+            if not outs:
+                raise Unsupported("if without effect")
+            ka, a = self.branch(st.body, outs)
+            kb, b = self.branch(st.orelse, outs)
+            if ka != kb:
+                raise Unsupported("branches assign different shapes")
+            if len(outs) == 1:
+                head = "%slet %s := if %s then %s else %s\n" % (ind, outs[0], c, a, b)
+            else:
+                head = "%slet br_ := if %s then %s else %s\n" % (ind, c, a, b)
+                n = len(outs)
+                for i, o in enumerate(outs):
+                    head += "%slet %s := br_%s\n" % (ind, o, ".2" * i + (".1" if i < n - 1 else ""))
+            for o, k in zip(outs, ka):
+                self.bind(o, k)
+            k, s = self.block(rest, ind)
+            return k, head + s
+        if (isinstance(st, ast.Assign) and len(st.targets) == 1 and isinstance(st.targets[0], ast.Tuple)
+                and all(isinstance(x, ast.Name) for x in st.targets[0].elts)):
+            names = [x.id for x in st.targets[0].elts]
+            k, s = self.expr(st.value)
+            if not (isinstance(k, tuple) and len(k[1]) == len(names)):
+                raise Unsupported("unpacking " + ast.unparse(st)[:60])
+            tmp = "tup%d_" % len(self.env)
+            head = "%slet %s := %s\n" % (ind, tmp, s)
+            m = len(names)
+            for i, (nm, kk) in enumerate(zip(names, k[1])):
+                if nm == "_":
+                    continue
+                if nm in self.params:
+                    raise Unsupported("rebinding of parameter " + nm)
+                head += "%slet %s := %s%s\n" % (ind, nm, tmp, ".2" * i + (".1" if i < m - 1 else ""))
+                self.bind(nm, kk)
+            kk, ss = self.block(rest, ind)
+            return kk, head + ss
+        n, k, s = self.assign(st)
+        self.bind(n, k)
+        kk, ss = self.block(rest, ind)
+        return kk, "%slet %s := %s\n%s" % (ind, n, s, ss)
+
+
+def _lean_type(k):
+    if isinstance(k, tuple):
+        return " × ".join(("(%s)" % _lean_type(x)) if isinstance(x, tuple) else _lean_type(x) for x in k[1])
+    return {"scalar": "α", "vec": "V3 α", "pose": "Pose α", "bool": "Bool"}.get(k) or _bad(k)
+
+
+def _bad(k):
+    raise Unsupported("value of kind %s escapes" % (k,))
+
+
+# One entry per generated file pair.  kernels: (python file, python name, parameter kinds, link or None)
+# link = (theorem binders, lhs with {f} = generated name, rhs (model term), proof)
+SPECS = {
+    "04": dict(
+        imports=["D3.Model.Containment"], opens="D3 D3.Containment", minmax=("min", "max"),
+        kernels=[
+            ("containment.py", "sphere_aabb", ["vec", "scalar"],
+             ("(c : V3 α) (r : α)", "mkBox ({f} c r).1 ({f} c r).2", "D3.Containment.sphereAabb c r", "rfl")),
+            ("containment.py", "capsule_aabb", ["pose", "scalar", "scalar"],
+             ("(A : Pose α) (r h : α)", "mkBox ({f} A r h).1 ({f} A r h).2", "D3.Containment.capsuleAabb A r h",
+              "rfl")),
+            # the model makes numpy's NaN outcome of np.sqrt explicit (`Err.sqrtNeg`); the translation does not, so
+            # these two links are equalities under the explicit "no radicand is negative" hypotheses
+            ("containment.py", "disk_aabb", ["vec", "scalar", "vec"],
+             ("(c : V3 α) (r : α) (n : V3 α)\n    (hx : ¬ (1 - n.x * n.x < 0)) (hy : ¬ (1 - n.y * n.y < 0)) "
+              "(hz : ¬ (1 - n.z * n.z < 0))",
+              "D3.Containment.diskAabb c r n", ".ok (mkBox ({f} c r n).1 ({f} c r n).2)",
+              "by\n  unfold D3.Containment.diskAabb D3.Containment.diskExtent1 D3.Containment.sqrtChecked\n"
+              "  rw [if_neg hx, if_neg hy, if_neg hz]; rfl")),
+            ("containment.py", "cylinder_aabb", ["pose", "scalar", "scalar"],
+             ("(A : Pose α) (r l : α)\n    (hx : ¬ (1 - A.R.col2.x * A.R.col2.x < 0)) "
+              "(hy : ¬ (1 - A.R.col2.y * A.R.col2.y < 0))\n    (hz : ¬ (1 - A.R.col2.z * A.R.col2.z < 0))",
+              "D3.Containment.cylinderAabb A r l", ".ok (mkBox ({f} A r l).1 ({f} A r l).2)",
+              "by\n  unfold D3.Containment.cylinderAabb D3.Containment.cylinderExtent1 D3.Containment.sqrtChecked\n"
+              "  dsimp only\n  rw [if_neg hx, if_neg hy, if_neg hz]; rfl")),
+            ("containment.py", "cone_aabb", ["pose", "scalar", "scalar"],
+             ("(A : Pose α) (r h : α)", "mkBox ({f} A r h).1 ({f} A r h).2", "D3.Containment.coneAabb A r h",
+              "rfl")),
+        ]),
+    "10": dict(
+        imports=["D3.Model.DistLine"], opens="D3 D3.DistLine", minmax=("pmin", "pmax"),
+        kernels=[
+            ("distance/_line.py", "_point_to_line", ["vec", "vec", "vec"],
+             ("(p lp ld : V3 α)", "(⟨({f} p lp ld).1, ({f} p lp ld).2.1, ({f} p lp ld).2.2⟩ : PL α)",
+              "D3.DistLine.pointToLineK p lp ld", "rfl")),
+            # model: `divZero` for a degenerate segment; link under the explicit non-zero-denominator hypothesis
+            ("distance/_line.py", "point_to_line_segment", ["vec", "vec", "vec"],
+             ("(p a b : V3 α) (h : V3.dot (b - a) (b - a) < 0 ∨ 0 < V3.dot (b - a) (b - a))",
+              "(D3.DistLine.pointToSegment p a b).map (fun r => (r.d, r.p))", ".ok ({f} p a b)",
+              "by\n  unfold D3.DistLine.pointToSegment D3.DistLine.divC\n  dsimp only\n  rw [if_pos h]; rfl")),
+            ("distance/_plane.py", "_point_to_plane", ["vec", "vec", "vec", "bool"],
+             ("(p pp n : V3 α) (signed : Bool)", "{f} p pp n signed", "D3.DistLine.pointToPlaneK p pp n signed",
+              "by cases signed <;> rfl")),
+            ("geometry.py", "hesse_normal_form", ["vec", "vec"],
+             ("(pp n : V3 α)", "({f} pp n).2", "D3.DistLine.hesseD pp n", "rfl")),
+            ("geometry.py", "convert_segment_to_line", ["vec", "vec"],
+             ("(s0 s1 : V3 α)", "{f} s0 s1", "D3.DistLine.segmentToLine s0 s1",
+              "by unfold {f} D3.DistLine.segmentToLine; dsimp only [GT.gt]; split <;> rfl")),
+            ("geometry.py", "line_from_pluecker", ["vec", "vec"],
+             ("(ld lm : V3 α)", "({f} ld lm).1", "D3.DistLine.lineFromPlueckerPoint ld lm",
+              "by unfold {f} D3.DistLine.lineFromPlueckerPoint; dsimp only [GT.gt]; split <;> rfl")),
+        ]),
+    "03": dict(
+        imports=["D3.Model.Support"], opens="D3 D3.Support", minmax=("min", "max"),
+        kernels=[
+            ("utils.py", "norm_vector", ["vec"],
+             ("(v : V3 α)", "{f} v", "D3.Support.normVector v", "rfl")),
+            ("utils.py", "transform_point", ["pose", "vec"],
+             ("(A : Pose α) (p : V3 α)", "{f} A p", "D3.Support.transformPoint A p", "rfl")),
+            ("geometry.py", "support_function_ellipsoid", ["vec", "pose", "vec"],
+             ("(d : V3 α) (A : Pose α) (radii : V3 α)", "{f} d A radii", "(D3.Support.supportEllipsoid d A radii).2",
+              "rfl")),
+            ("geometry.py", "support_function_box", ["vec", "pose", "vec"],
+             ("(d : V3 α) (A : Pose α) (half : V3 α)", "{f} d A half", "(D3.Support.supportBoxFn d A half).2",
+              "rfl")),
+            ("geometry.py", "support_function_cylinder", ["vec", "pose", "scalar", "scalar"],
+             ("(d : V3 α) (A : Pose α) (r l : α)", "{f} d A r l", "(D3.Support.supportCylinder d A r l).2",
+              "by unfold {f} D3.Support.supportCylinder D3.Support.cylinderLocal D3.Support.cylinderLocalS; "
+              "dsimp only [isZero]; split <;> split <;> rfl")),
+            ("geometry.py", "support_function_sphere", ["vec", "vec", "scalar"],
+             ("(d c : V3 α) (r : α)", "{f} d c r", "(D3.Support.supportSphere d c r).2",
+              "by unfold {f} D3.Support.supportSphere D3.Support.supportSphereN; dsimp only [isZero]; split <;> rfl")),
+        ]),
+    # second batch for C03 (separate files so that Kernels03/Link03 stay as they are); reuses the kernels of "03"
+    "03b": dict(
+        imports=["D3.Gen.Kernels03"], opens="D3 D3.Support", minmax=("min", "max"), uses="03",
+        kernels=[
+            ("geometry.py", "support_function_capsule", ["vec", "pose", "scalar", "scalar"],
+             ("(d : V3 α) (A : Pose α) (r h : α)", "{f} d A r h", "(D3.Support.supportCapsule d A r h).2",
+              "by unfold {f} D3.Support.supportCapsule D3.Support.capsuleLocal D3.Support.capsuleLocalS; "
+              "dsimp only [isZero, GT.gt]; split <;> split <;> rfl")),
+            ("geometry.py", "support_function_cone", ["vec", "pose", "scalar", "scalar"],
+             ("(d : V3 α) (A : Pose α) (r h : α)", "{f} d A r h", "(D3.Support.supportCone d A r h).2",
+              "by unfold {f} D3.Support.supportCone D3.Support.coneLocal D3.Support.coneLocalN; "
+              "dsimp only [isZero, GE.ge]; split <;> split <;> rfl")),
+            # model: `divZero` when the in-plane length is 0; link under the explicit non-zero hypotheses
+            ("utils.py", "plane_basis_from_normal", ["vec"],
+             ("(n : V3 α) (ha : ¬ isZero (sqrt (n.x * n.x + n.z * n.z))) (hb : ¬ isZero (sqrt (n.y * n.y + n.z * n.z)))",
+              "(D3.Support.planeBasisFromNormal n).map (fun r => (r.2.1, r.2.2))", ".ok ({f} n)",
+              "by\n  unfold {f} D3.Support.planeBasisFromNormal D3.Support.planeBasisA D3.Support.planeBasisB\n"
+              "  dsimp only [GE.ge]\n  by_cases hc : absS n.y ≤ absS n.x\n  · simp only [if_pos hc, if_neg ha]; rfl\n"
+              "  · simp only [if_neg hc, if_neg hb]; rfl")),
+            # the model's `supportDisk` threads the plane-basis error; the body after the basis is `diskWithBasis`
+            ("geometry.py", "support_function_disk", ["vec", "vec", "scalar", "vec"],
+             ("(d c : V3 α) (r : α) (n : V3 α)", "{f} d c r n",
+              "(D3.Support.diskWithBasis d c r (plane_basis_from_normal n).1 (plane_basis_from_normal n).2 n).2",
+              "by unfold {f} D3.Support.diskWithBasis D3.Support.diskN D3.Support.columnStack; "
+              "dsimp only [isZero]; split <;> rfl")),
+        ]),
+    # second batch for C10 (Kernels10/Link10 stay as they are)
+    "10b": dict(
+        imports=["D3.Gen.Kernels10"], opens="D3 D3.DistLine", minmax=("pmin", "pmax"), uses="10",
+        kernels=[
+            ("distance/_line.py", "point_to_line", ["vec", "vec", "vec"],
+             ("(p lp ld : V3 α)", "{f} p lp ld", "D3.DistLine.pointToLine p lp ld", "rfl")),
+            # model: `divZero` when `det == 0` in the non-parallel branch; link under the explicit hypothesis
+            ("distance/_line.py", "_line_to_line", ["vec", "vec", "vec", "vec", "scalar"],
+             ("(lp1 ld1 lp2 ld2 : V3 α) (epsilon : α)\n    (h : 1 - -(V3.dot ld1 ld2) * -(V3.dot ld1 ld2) < 0 ∨ "
+              "0 < 1 - -(V3.dot ld1 ld2) * -(V3.dot ld1 ld2))",
+              "(D3.DistLine.lineToLineK lp1 ld1 lp2 ld2 epsilon).map (fun r => (r.d, r.p1, r.p2, r.t1, r.t2))",
+              ".ok ({f} lp1 ld1 lp2 ld2 epsilon)",
+              "by\n  unfold {f} D3.DistLine.lineToLineK D3.DistLine.divC\n  dsimp only [GE.ge]\n"
+              "  by_cases hc : epsilon ≤ absS (1 - -(V3.dot ld1 ld2) * -(V3.dot ld1 ld2))\n"
+              "  · simp only [if_pos hc, if_pos h]; rfl\n  · simp only [if_neg hc]; rfl")),
+            # model: `divZero` when the line is not parallel by the epsilon test and yet `n·ld == 0`
+            ("distance/_plane.py", "_line_to_plane", ["vec", "vec", "vec", "vec", "scalar"],
+             ("(lp ld pp n : V3 α) (epsilon : α) (h : V3.dot n ld < 0 ∨ 0 < V3.dot n ld)",
+              "D3.DistLine.lineToPlaneK lp ld pp n epsilon", ".ok ({f} lp ld pp n epsilon)",
+              "by\n  unfold {f} D3.DistLine.lineToPlaneK D3.DistLine.divC\n  dsimp only\n"
+              "  by_cases hc : V3.dot ld n * V3.dot ld n < epsilon\n"
+              "  · simp only [if_pos hc]; rfl\n  · simp only [if_neg hc, if_pos h]; rfl")),
+            ("distance/_plane.py", "point_to_plane", ["vec", "vec", "vec", "bool"],
+             ("(p pp n : V3 α) (signed : Bool)", "{f} p pp n signed", "D3.DistLine.pointToPlaneK p pp n signed",
+              "by cases signed <;> rfl")),
+        ]),
+    "11": dict(
+        imports=["D3.Model.DistPoly"], opens="D3 D3.DistPoly", minmax=("min", "max"),
+        kernels=[
+            ("utils.py", "inverse_transform_point", ["pose", "vec"],
+             ("(A : Pose α) (p : V3 α)", "{f} A p", "D3.DistPoly.inverseTransformPoint A p", "rfl")),
+            ("distance/_box.py", "point_to_box", ["vec", "pose", "vec"],
+             ("(p : V3 α) (A : Pose α) (size : V3 α)",
+              "(D3.DistPoly.pointToBox p A size).map (fun r => (r.dist, r.cp))", ".ok ({f} p A size)", "rfl")),
+            # python tests `length != 0.0`, the model `isZero len` with the branches the other way round
+            ("distance/_disk.py", "point_to_disk", ["vec", "vec", "scalar", "vec"],
+             ("(p c : V3 α) (r : α) (n : V3 α)",
+              "(D3.DistPoly.pointToDisk p c r n).map (fun r => (r.dist, r.cp))", ".ok ({f} p c r n)",
+              "by\n  unfold {f} D3.DistPoly.pointToDisk D3.DistPoly.isZero\n  dsimp only\n"
+              "  by_cases h1 : sqrt (V3.dot (p - c - V3.dot (p - c) n * n) (p - c - V3.dot (p - c) n * n)) < 0 <;>\n"
+              "  by_cases h2 : 0 < sqrt (V3.dot (p - c - V3.dot (p - c) n * n) (p - c - V3.dot (p - c) n * n)) <;>\n"
+              "  simp only [h1, h2, not_true_eq_false, not_false_eq_true, and_self, and_false, false_and, or_self, "
+              "or_true, true_or, if_true, if_false] <;> rfl")),
+        ]),
+}
+
+_KNOWN = {}
+
+
+def translate_spec(tag):
+    spec = SPECS[tag]
+    ns = "D3.Gen.K" + tag
+    files = sorted({k[0] for k in spec["kernels"]})
+    out = ["/- GENERATED by harness/py2lean.py from /repo/distance3d/{%s} — do not edit. -/\n" % ", ".join(files)]
+    out += ["import %s\n" % i for i in spec["imports"]]
+    out.append("\nset_option linter.unusedSectionVars false\nset_option linter.unusedVariables false\n\n"
+               "namespace %s\nopen %s\n\nscalar_variables\n\n" % (ns, spec["opens"]))
+    link = ["/- GENERATED by harness/py2lean.py — link theorems: today's source = the hand-written model. -/",
+            "import D3.Gen.Kernels" + tag, "", "set_option linter.unusedSectionVars false", "",
+            "namespace " + ns, "open " + spec["opens"], "", "scalar_variables", ""]
+    problems, known, trees = [], {}, {}
+    if spec.get("uses"):
+        if spec["uses"] not in _KNOWN:
+            translate_spec(spec["uses"])
+        for py_, (ln_, pk_, rk_) in _KNOWN[spec["uses"]].items():
+            known[py_] = ("D3.Gen.K%s.%s" % (spec["uses"], ln_), pk_, rk_)
+    _KNOWN[tag] = known
+    for pyfile, py, kinds, lk in spec["kernels"]:
+        path = os.path.join(REPO, "distance3d", pyfile)
+        if path not in trees:
+            try:
+                trees[path] = {n.name: n for n in ast.parse(open(path).read()).body if isinstance(n, ast.FunctionDef)}
+            except (OSError, SyntaxError) as e:
+                trees[path] = {}
+                problems.append("%s: cannot parse (%s)" % (pyfile, e))
+        fn = trees[path].get(py)
+        name = lean_name(py)
+        if fn is None:
+            problems.append("%s: function not found" % py)
+            out.append("-- %s: function not found\n\n" % py)
+        else:
+            body = [s for s in fn.body if not (isinstance(s, ast.Expr) and isinstance(s.value, ast.Constant))]
+            params = [a.arg for a in fn.args.args]
+            try:
+                if len(params) != len(kinds) or fn.args.vararg or fn.args.kwarg or fn.args.kwonlyargs:
+                    raise Unsupported("parameter list changed")
+                rk, term = Tr2(params, kinds, known, spec["minmax"]).block(body)
+                sig = " ".join("(%s : %s)" % (p, _lean_type(k)) for p, k in zip(params, kinds))
+                out.append("/-- `%s:%s` -/\ndef %s %s : %s :=\n%s\n\n" % (pyfile, py, name, sig, _lean_type(rk), term))
+                known[py] = (name, kinds, rk)
+            except Unsupported as e:
+                problems.append("%s: outside the translator's subset: %s" % (py, e))
+                out.append("-- %s: outside the translator's subset (%s)\n\n" % (py, e))
+        if lk is not None:
+            binders, lhs, rhs, proof = lk
+            link.append("/-- regenerated `%s` coincides with the model the theorems are about -/" % py)
+            link.append("theorem %s_link %s :\n    %s = %s := %s\n" % (
+                name, binders, lhs.replace("{f}", name), rhs.replace("{f}", name), proof.replace("{f}", name)))
+    out.append("end %s\n" % ns)
+    link.append("end %s\n" % ns)
+    return "".join(out), "\n".join(link), problems
+
+
 def _write(path, text):
     old = open(path).read() if os.path.exists(path) else None
     if old != text:
@@ -166,7 +739,13 @@ def write_all(gen_dir):
     k, l, problems = translate_05()
     c1 = _write(os.path.join(gen_dir, "Kernels05.lean"), k)
     c2 = _write(os.path.join(gen_dir, "Link05.lean"), l)
-    return {"Kernels05": (c1 or c2, {"problems": problems})}
+    res = {"Kernels05": (c1 or c2, {"problems": problems})}
+    for tag in sorted(SPECS):
+        k, l, problems = translate_spec(tag)
+        c1 = _write(os.path.join(gen_dir, "Kernels%s.lean" % tag), k)
+        c2 = _write(os.path.join(gen_dir, "Link%s.lean" % tag), l)
+        res["Kernels" + tag] = (c1 or c2, {"problems": problems})
+    return res
 
 
 if __name__ == "__main__":
